@@ -4,7 +4,7 @@
 //! `check` subcommand merges into the evidence file.
 
 use crate::json::{self, J};
-use crate::sim::{minimise, regenerate, run_batch, run_one, BatchCfg, Obs, Outcome, World};
+use crate::sim::{lane_start, minimise, regenerate, run_batch, run_lane_context, run_one, BatchCfg, Obs, Outcome, World, MINIMISE_BUDGET};
 use crate::rng::{fold, FNV_OFFSET};
 use std::path::{Path, PathBuf};
 use std::time::Instant;
@@ -72,12 +72,98 @@ fn traced<W: World>(ops: &[W::Op]) -> (Outcome, Vec<String>) {
     (out, obs.trace.take().unwrap_or_default())
 }
 
+/// What a fresh process reported for a replay: Some((class, step, digest)) when it violated.
+type Fresh = Option<(String, usize, u64)>;
+
+fn parse_replay_stdout(out: &std::process::Output) -> Result<Fresh, String> {
+    let so = String::from_utf8_lossy(&out.stdout);
+    for l in so.lines() {
+        if let Some(rest) = l.trim().strip_prefix("REPLAY-RESULT ") {
+            if rest.starts_with("no-violation") {
+                return Ok(None);
+            }
+            let mut class = String::new();
+            let mut step = 0usize;
+            let mut digest = 0u64;
+            for tok in rest.split_whitespace() {
+                if let Some(c) = tok.strip_prefix("class=") {
+                    class = c.to_string();
+                } else if let Some(x) = tok.strip_prefix("step=") {
+                    step = x.parse().unwrap_or(0);
+                } else if let Some(x) = tok.strip_prefix("digest=") {
+                    digest = json::parse_hex(x).unwrap_or(0);
+                }
+            }
+            return Ok(Some((class, step, digest)));
+        }
+    }
+    Err(format!("replay process printed no result line (exit {:?}): {}", out.status.code(), String::from_utf8_lossy(&out.stderr).trim()))
+}
+
+/// Execute one history alone in a fresh process.
+fn fresh_exec<W: World>(ops: &[W::Op], tmp: &Path) -> Result<Fresh, String> {
+    let file = J::obj().with("format", J::str("ckc-sim replay v1")).with("mode", J::str("history")).with("property_id", J::str(W::id())).with("ops", ops_json::<W>(ops));
+    std::fs::write(tmp, file.compact()).map_err(|e| format!("{}: {}", tmp.display(), e))?;
+    let exe = std::env::current_exe().map_err(|e| e.to_string())?;
+    let out = std::process::Command::new(exe).arg("replay").arg(tmp).arg("--machine").output().map_err(|e| format!("cannot spawn replay: {}", e))?;
+    parse_replay_stdout(&out)
+}
+
+/// Re-create a context in a fresh process: seeded runs `from..=to` of the lane of `to`, or
+/// directed scenarios `from..=to`; report what the last one did.
+fn fresh_context<W: World>(kind: &str, seed: u64, lanes: u64, from: u64, to: u64) -> Result<Fresh, String> {
+    let exe = std::env::current_exe().map_err(|e| e.to_string())?;
+    let out = std::process::Command::new(exe)
+        .arg("context-replay")
+        .arg("--prop")
+        .arg(W::id())
+        .arg("--kind")
+        .arg(kind)
+        .arg("--seed")
+        .arg(seed.to_string())
+        .arg("--lanes")
+        .arg(lanes.to_string())
+        .arg("--from")
+        .arg(from.to_string())
+        .arg("--to")
+        .arg(to.to_string())
+        .arg("--machine")
+        .output()
+        .map_err(|e| format!("cannot spawn context-replay: {}", e))?;
+    parse_replay_stdout(&out)
+}
+
+/// Used by `replay` and `context-replay`: run a context in this process.
+pub fn run_context<W: World>(kind: &str, seed: u64, lanes: u64, from: u64, to: u64, trace: bool) -> (Outcome, Vec<String>, Vec<W::Op>) {
+    let mut obs = Obs::for_world::<W>();
+    if trace {
+        obs.trace = Some(Vec::new());
+    }
+    obs.detail = true;
+    if kind == "directed" {
+        let directed = W::directed();
+        let mut scratch = Obs::for_world::<W>();
+        let to = (to as usize).min(directed.len().saturating_sub(1));
+        for d in (from as usize)..to {
+            let _ = run_one::<W>(&directed[d].1, &mut scratch);
+        }
+        let out = run_one::<W>(&directed[to].1, &mut obs);
+        (out, obs.trace.take().unwrap_or_default(), directed[to].1.clone())
+    } else {
+        let out = run_lane_context::<W>(seed, lanes, from, to, &mut obs);
+        (out, obs.trace.take().unwrap_or_default(), regenerate::<W>(seed, to))
+    }
+}
+
 pub fn run_property<W: World>(cfg: &RunCfg) -> Report {
     let t0 = Instant::now();
     let mut harness_errors: Vec<String> = Vec::new();
     let mut lines: Vec<String> = Vec::new();
+    let scratch = cfg.root.join("sim/target/run");
+    let _ = std::fs::create_dir_all(&scratch);
+    let tmp = scratch.join(format!("candidate-{}-{}.json", W::id(), std::process::id()));
 
-    // ---- directed scenarios, through the same interpreter and invariants
+    // ---- directed scenarios, through the same interpreter and invariants, in this (fresh) process
     let directed = W::directed();
     let mut dobs = Obs::for_world::<W>();
     let mut ddigest = FNV_OFFSET;
@@ -93,9 +179,15 @@ pub fn run_property<W: World>(cfg: &RunCfg) -> Report {
     }
     let directed_wall = t0.elapsed().as_secs_f64();
 
-    // ---- seeded runs
+    // ---- seeded runs, in lane processes
     let t1 = Instant::now();
-    let batch = run_batch::<W>(&BatchCfg { base_seed: cfg.seed, runs: cfg.runs, workers: cfg.workers, values_runs: cfg.values_runs, keep_run_digests: cfg.dump_digests.is_some() });
+    let batch = match run_batch::<W>(&BatchCfg { prop: W::id().to_string(), base_seed: cfg.seed, runs: cfg.runs, workers: cfg.workers, values_runs: cfg.values_runs, keep_run_digests: cfg.dump_digests.is_some(), scratch: scratch.clone() }) {
+        Ok(b) => b,
+        Err(e) => {
+            let j = J::obj().with("property_id", J::str(W::id())).with("harness_errors", J::Arr(vec![J::Str(format!("seeded batch failed: {}", e))])).with("lines", J::Arr(vec![]));
+            return Report { json: j, exit: 2 };
+        }
+    };
     let seeded_wall = t1.elapsed().as_secs_f64();
     if let Some(p) = &cfg.dump_digests {
         let mut bytes = Vec::with_capacity(batch.run_digests.len() * 8);
@@ -107,21 +199,22 @@ pub fn run_property<W: World>(cfg: &RunCfg) -> Report {
         }
     }
 
-    // ---- violations: one representative per class, lowest run index; directed first
+    // ---- violations: one representative per class, lowest index; directed first
     struct Case<O> {
         class: String,
         origin: String,
         run: Option<u64>,
+        directed_index: Option<usize>,
         count: u64,
         ops: Vec<O>,
         first_seeded: Option<u64>,
     }
     let mut cases: Vec<Case<W::Op>> = Vec::new();
     for (i, class) in &dfails {
-        if !cases.iter().any(|c| &c.class == class) {
-            cases.push(Case { class: class.clone(), origin: format!("directed scenario '{}'", directed[*i].0), run: None, count: 1, ops: directed[*i].1.clone(), first_seeded: None });
-        } else if let Some(c) = cases.iter_mut().find(|c| &c.class == class) {
+        if let Some(c) = cases.iter_mut().find(|c| &c.class == class) {
             c.count += 1;
+        } else {
+            cases.push(Case { class: class.clone(), origin: format!("directed scenario '{}'", directed[*i].0), run: None, directed_index: Some(*i), count: 1, ops: directed[*i].1.clone(), first_seeded: None });
         }
     }
     for (class, (i, count)) in &batch.fail_classes {
@@ -129,7 +222,7 @@ pub fn run_property<W: World>(cfg: &RunCfg) -> Report {
             c.count += *count;
             c.first_seeded = Some(*i);
         } else {
-            cases.push(Case { class: class.clone(), origin: format!("seeded run {} of VERIF_SEED {}", i, cfg.seed), run: Some(*i), count: *count, ops: regenerate::<W>(cfg.seed, *i), first_seeded: Some(*i) });
+            cases.push(Case { class: class.clone(), origin: format!("seeded run {} of VERIF_SEED {}", i, cfg.seed), run: Some(*i), directed_index: None, count: *count, ops: regenerate::<W>(cfg.seed, *i), first_seeded: Some(*i) });
         }
     }
     let known = load_known(&cfg.root);
@@ -138,10 +231,8 @@ pub fn run_property<W: World>(cfg: &RunCfg) -> Report {
     let mut known_hits = 0usize;
     let replays_dir = cfg.root.join("replays");
     for case in cases.iter() {
-        let is_known = known.iter().any(|k| k.status == "open" && k.property == W::id() && k.class == case.class);
-        if is_known {
+        if let Some(k) = known.iter().find(|k| k.status == "open" && k.property == W::id() && k.class == case.class) {
             known_hits += 1;
-            let k = known.iter().find(|k| k.status == "open" && k.property == W::id() && k.class == case.class).unwrap();
             lines.push(format!("KNOWN-FINDING: {}", k.text));
             vjson.push(J::obj().with("class", J::str(&case.class)).with("known_finding", J::Bool(true)).with("failing_runs_seen", J::u(case.count)));
             continue;
@@ -152,12 +243,12 @@ pub fn run_property<W: World>(cfg: &RunCfg) -> Report {
             continue;
         }
         let original_len = case.ops.len();
-        let min = minimise::<W>(case.ops.clone(), &case.class);
-        let (out, trace) = traced::<W>(&min.ops);
-        let v = match out.violation {
-            Some(v) => v,
-            None => {
-                harness_errors.push(format!("minimised history for class {} no longer fails", case.class));
+        let same_class = |f: &Fresh| f.as_ref().map(|x| x.0 == case.class).unwrap_or(false);
+        // 1. does the history fail on its own, in a fresh process?
+        let isolated = match fresh_exec::<W>(&case.ops, &tmp) {
+            Ok(f) => f,
+            Err(e) => {
+                harness_errors.push(e);
                 continue;
             }
         };
@@ -166,7 +257,7 @@ pub fn run_property<W: World>(cfg: &RunCfg) -> Report {
             None => format!("{}-directed-{}-{}.json", W::id(), sanitize(&case.class), cfg.profile),
         };
         let path = replays_dir.join(fname);
-        let file = J::obj()
+        let mut file = J::obj()
             .with("format", J::str("ckc-sim replay v1"))
             .with("property_id", J::str(W::id()))
             .with("verif_seed", J::u(cfg.seed))
@@ -174,46 +265,124 @@ pub fn run_property<W: World>(cfg: &RunCfg) -> Report {
             .with("origin", J::str(&case.origin))
             .with("profile", J::str(&cfg.profile))
             .with("original_history_len", J::u(original_len as u64))
-            .with("minimised_history_len", J::u(min.ops.len() as u64))
-            .with("minimiser_executions", J::u(min.executions as u64))
-            .with("schedule_and_faults", J::str("single owner, calls in listed order; no fault kinds exist for this crate (DESIGN §1), so the fault trace is empty"))
-            .with("expected", J::obj().with("class", J::str(&v.class)).with("step", J::u(v.step as u64)).with("digest", J::hex64(out.digest)).with("detail", J::str(&v.detail)))
-            .with("ops", ops_json::<W>(&min.ops))
-            .with("trace", J::Arr(trace.iter().map(|s| J::str(s)).collect()));
+            .with("schedule_and_faults", J::str("single owner, calls in listed order; no fault kinds exist for this crate (DESIGN 1), so the fault trace is empty"));
+        let (v_class, v_step, v_digest, v_detail, min_len);
+        if same_class(&isolated) {
+            // 2a. minimise: in this process first; if the result does not hold up in a fresh
+            // process (the tree keeps process-wide state), once more with a fresh process per candidate
+            let mut fast = |cand: &[W::Op]| -> Option<usize> {
+                let mut obs = Obs::for_world::<W>();
+                run_one::<W>(cand, &mut obs).violation.filter(|v| v.class == case.class).map(|v| v.step)
+            };
+            let mut min = minimise::<W>(case.ops.clone(), &mut fast, MINIMISE_BUDGET);
+            let mut how = "in-process";
+            let ok = matches!(fresh_exec::<W>(&min.ops, &tmp), Ok(ref f) if same_class(f));
+            if !ok {
+                let mut slow = |cand: &[W::Op]| -> Option<usize> {
+                    match fresh_exec::<W>(cand, &tmp) {
+                        Ok(Some((c, step, _))) if c == case.class => Some(step),
+                        _ => None,
+                    }
+                };
+                min = minimise::<W>(case.ops.clone(), &mut slow, 1500);
+                how = "fresh process per candidate (the tree keeps state between calls)";
+            }
+            let (out, trace) = traced::<W>(&min.ops);
+            // what is recorded is what a fresh process observes
+            let fresh = match fresh_exec::<W>(&min.ops, &tmp) {
+                Ok(Some(f)) if f.0 == case.class => f,
+                _ => {
+                    harness_errors.push(format!("minimised history for class {} does not fail in a fresh process", case.class));
+                    continue;
+                }
+            };
+            v_class = fresh.0;
+            v_step = fresh.1;
+            v_digest = fresh.2;
+            v_detail = out.violation.as_ref().map(|v| v.detail.clone()).unwrap_or_else(|| "(detail only visible in a fresh process; run the replay command)".into());
+            min_len = min.ops.len();
+            file.set("mode", J::str("history"));
+            file.set("minimised_history_len", J::u(min.ops.len() as u64));
+            file.set("minimiser", J::Str(format!("{} executions, {}", min.executions, how)));
+            file.set("ops", ops_json::<W>(&min.ops));
+            file.set("trace", J::Arr(trace.iter().map(|s| J::str(s)).collect()));
+        } else {
+            // 2b. it fails only in the context it was found in: re-create that context
+            let (kind, start, to) = match (case.run, case.directed_index) {
+                (Some(i), _) => ("seeded", lane_start(i, batch.lanes), i),
+                (None, Some(d)) => ("directed", 0u64, d as u64),
+                _ => continue,
+            };
+            match fresh_context::<W>(kind, cfg.seed, batch.lanes, start, to) {
+                Ok(ref f) if same_class(f) => {}
+                Ok(_) => {
+                    harness_errors.push(format!("class {} ({}) fails neither alone nor in its re-created context: the tree behaves non-deterministically", case.class, case.origin));
+                    continue;
+                }
+                Err(e) => {
+                    harness_errors.push(e);
+                    continue;
+                }
+            }
+            // shorten the context: latest starting point that still fails (bisection, then verified)
+            let (mut lo, mut hi) = (start, to); // fails from lo; unknown above
+            let mut probes = 0;
+            while lo < hi && probes < 24 {
+                let mid = lo + (hi - lo + 1) / 2;
+                probes += 1;
+                match fresh_context::<W>(kind, cfg.seed, batch.lanes, mid, to) {
+                    Ok(ref f) if same_class(f) => lo = mid,
+                    _ => hi = mid - 1,
+                }
+            }
+            let fresh = match fresh_context::<W>(kind, cfg.seed, batch.lanes, lo, to) {
+                Ok(Some(f)) if f.0 == case.class => f,
+                _ => {
+                    harness_errors.push(format!("shortened context for class {} did not reproduce", case.class));
+                    continue;
+                }
+            };
+            v_class = fresh.0;
+            v_step = fresh.1;
+            v_digest = fresh.2;
+            v_detail = format!("fails only after other histories have run in the same process (process-wide state in the crate): {} histories of context, then the listed one", to - lo);
+            min_len = case.ops.len();
+            file.set("mode", J::str("context"));
+            file.set("context", J::obj().with("kind", J::str(kind)).with("lanes", J::u(batch.lanes)).with("from", J::u(lo)).with("to", J::u(to)).with("meaning", J::str("seeded: the runs of the lane of `to` with index in from..=to, in lane order; directed: scenarios from..=to; all in one fresh process, the last one must fail")));
+            file.set("ops", ops_json::<W>(&case.ops));
+        }
+        file.set("expected", J::obj().with("class", J::str(&v_class)).with("step", J::u(v_step as u64)).with("digest", J::hex64(v_digest)).with("detail", J::str(&v_detail)));
         if let Err(e) = std::fs::create_dir_all(&replays_dir).and_then(|_| std::fs::write(&path, file.pretty())) {
             harness_errors.push(format!("cannot write replay file {}: {}", path.display(), e));
             continue;
         }
-        // fresh process must reproduce it exactly
+        // the file itself, in a fresh process, must reproduce it exactly
         let reproduced = match std::env::current_exe().and_then(|exe| std::process::Command::new(exe).arg("replay").arg(&path).arg("--machine").output()) {
-            Ok(o) => {
-                let so = String::from_utf8_lossy(&o.stdout);
-                let want = format!("REPLAY-RESULT class={} step={} digest={:#018x}", v.class, v.step, out.digest);
-                o.status.code() == Some(1) && so.lines().any(|l| l.trim() == want)
-            }
+            Ok(o) => matches!(parse_replay_stdout(&o), Ok(Some((ref c, st, d))) if *c == v_class && st == v_step && d == v_digest) && o.status.code() == Some(1),
             Err(e) => {
                 harness_errors.push(format!("cannot spawn replay: {}", e));
                 false
             }
         };
         if !reproduced {
-            harness_errors.push(format!("replay file {} did not reproduce class {} in a fresh process", path.display(), v.class));
+            harness_errors.push(format!("replay file {} did not reproduce class {} in a fresh process", path.display(), v_class));
             continue;
         }
-        lines.push(format!("VIOLATION property={} replay={}", W::id(), path.display()));
         let fs = case.first_seeded.map(|i| i.to_string()).unwrap_or_else(|| "none".into());
-        lines.push(format!("  class={} origin={} first_failing_seeded_run={} failing_runs_seen={} minimised {} -> {} ops: {}", v.class, case.origin, fs, case.count, original_len, min.ops.len(), v.detail));
+        lines.push(format!("VIOLATION property={} replay={}", W::id(), path.display()));
+        lines.push(format!("  class={} origin={} first_failing_seeded_run={} failing_runs_seen={} minimised {} -> {} ops: {}", v_class, case.origin, fs, case.count, original_len, min_len, v_detail));
         vjson.push(
             J::obj()
-                .with("class", J::str(&v.class))
+                .with("class", J::str(&v_class))
                 .with("origin", J::str(&case.origin))
                 .with("failing_runs_seen", J::u(case.count))
                 .with("first_failing_seeded_run", case.first_seeded.map(J::u).unwrap_or(J::Null))
                 .with("replay", J::str(&path.display().to_string()))
-                .with("minimised_ops", J::u(min.ops.len() as u64))
-                .with("detail", J::str(&v.detail)),
+                .with("minimised_ops", J::u(min_len as u64))
+                .with("detail", J::str(&v_detail)),
         );
     }
+    let _ = std::fs::remove_file(&tmp);
 
     // ---- samples: the first seeded histories, and one directed scenario
     let mut samples: Vec<J> = Vec::new();
